@@ -344,6 +344,79 @@ def r_glr(F, res):
         res.missing(rid, "build/calls", "Tree::build_inner does not replay both shift_action and reduce_action", h.loc())
 
 
+def r_line_column(F, res, rid, f):
+    """line/column after a piece of text, in bytes and with `\n` as the only line terminator (what every span and every error
+    position is built from): line += #`\n`; column = bytes after the last `\n`, or column + byte length without one"""
+    def byte_len_of_self(x):
+        c = idiom.len_of(x)
+        while is_call(c, "::as_bytes") or is_call(c, "::bytes"):
+            c = c[2][0]
+        return c == ("param", "self")
+    def over_self_bytes(x):
+        # an iterator over the bytes of self, no adaptor
+        src = x
+        while is_call(src, "::iter") or is_call(src, "::as_bytes") or is_call(src, "::bytes") or is_call(src, "::into_iter"):
+            src = src[2][0]
+        return src == ("param", "self")
+    def newline_pred(clo):
+        # closure |c| *c == b'\n'  (and nothing else)
+        if not (isinstance(clo, tuple) and clo[0] == "closure" and clo[1] in F.fns):
+            return False
+        rets = [e[1] for q in Sim(F.fns[clo[1]], F).run() for e in q.events if e[0] == "return"]
+        def is_nl(r):
+            return isinstance(r, tuple) and r[0] == "bin" and r[1] == "Eq" and ("const", 10) in (r[2], r[3])
+        return bool(rets) and all(is_nl(r) for r in rets)
+    seen = {"line": None, "col-nl": None, "col-plain": None}
+    why = {}
+    for p in Sim(f, F).run():
+        r = [e[1] for e in p.events if e[0] == "return"]
+        if not r or r[0][0] != "agg":
+            continue
+        lc = dict(r[0][2]).get("line_col")
+        if not (isinstance(lc, tuple) and lc[0] == "agg" and lc[1].endswith("Some")):
+            continue
+        inner = dict(lc[2]).get("0")
+        if not (isinstance(inner, tuple) and inner[0] == "agg"):
+            continue
+        d = dict(inner[2])
+        line, col = d.get("line"), d.get("column")
+        # line
+        okl = isinstance(line, tuple) and line[0] == "bin" and line[1] == "Add" and has_field(line[2], "line") and \
+            is_call(line[3], "::count") and is_call(line[3][2][0], "Iterator::filter") and over_self_bytes(line[3][2][0][2][0]) and \
+            newline_pred(line[3][2][0][2][1])
+        seen["line"] = okl if seen["line"] is None else (seen["line"] and okl)
+        if not okl:
+            why["line"] = fmt(line)[:140]
+        last_nl = [(tm, v) for tm, v in p.cond if tm[0] == "discr" and (is_call(tm[1], "::rposition") or is_call(tm[1], "::rfind")
+                                                                          or has_call(tm[1], "rposition") or has_call(tm[1], "rfind")
+                                                                          or has_call(tm[1], "::next"))]
+        found = last_nl and last_nl[-1][1] == frozenset(["Some"])
+        if found:
+            # column = len - idx - 1
+            okc = isinstance(col, tuple) and col[0] == "bin" and col[1] == "Sub" and col[3] == ("const", 1) and \
+                isinstance(col[2], tuple) and col[2][0] == "bin" and col[2][1] == "Sub" and byte_len_of_self(col[2][2]) and \
+                isinstance(col[2][3], tuple) and col[2][3][0] == "vfield" and idiom.same(col[2][3][1], last_nl[-1][0][1])
+            key = "col-nl"
+        else:
+            okc = isinstance(col, tuple) and col[0] == "bin" and col[1] == "Add" and (
+                has_field(col[2], "column") and byte_len_of_self(col[3]) or has_field(col[3], "column") and byte_len_of_self(col[2]))
+            key = "col-plain"
+        seen[key] = okc if seen[key] is None else (seen[key] and okc)
+        if not okc:
+            why[key] = fmt(col)[:140]
+    msgs = {"line": ("position-after/line", "line + number of `\\n` bytes of self", "the new line number is %s"),
+            "col-nl": ("position-after/column-after-newline", "byte length - index of the last `\\n` - 1", "after a newline the column is %s"),
+            "col-plain": ("position-after/column-no-newline", "column + byte length", "without a newline the column is %s")}
+    for k, (key, good, bad) in msgs.items():
+        if seen[k] is None:
+            res.anchor_lost(rid, "str::position_after: %s path not recognised" % k, f.loc())
+        elif seen[k]:
+            res.ok(rid, key, f.loc(), good)
+        else:
+            res.violation(rid, key, ("str::position_after: " + bad + ", expected %s (bytes, `\\n` only): every node after such "
+                                     "text is located on the wrong line/column") % (why.get(k), good), f.loc())
+
+
 def r_bytes(F, res):
     rid = res.rule("C13-R9", "str::position_after measures in bytes: offset, column and the newline scan derive from str::len / "
                    "as_bytes, never from a character count", floor=1)
@@ -361,6 +434,7 @@ def r_bytes(F, res):
         res.anchor_lost(rid, "no str::len / as_bytes call in str::position_after", f.loc())
     else:
         res.ok(rid, "position-after/units", f.loc(), "byte based (%s)" % ", ".join(sorted(mir.short(n) for n in byte_based)))
+    r_line_column(F, res, rid, f)
     # the offset itself
     for p in Sim(f, F).run():
         r = [e[1] for e in p.events if e[0] == "return"]
